@@ -4,7 +4,7 @@
 //! each listed j the number of second words with y >= j (a prefix: y decreases in v).  TraceRejection.tla compares with the table.
 use crate::rng::ScriptRng;
 use crate::util::*;
-use rand_distr::{Beta, Binomial, Distribution, Exp1, Gamma, Hypergeometric, Poisson, StandardNormal, Zeta, Zipf};
+use rand_distr::{Beta, Binomial, Distribution, Exp1, Gamma, Geometric, Hypergeometric, Poisson, StandardNormal, Zeta, Zipf};
 use serde_json::{json, Value};
 use std::io::{BufRead, Write};
 
@@ -84,6 +84,49 @@ pub fn drive(args: &[String]) -> i32 {
             match res {
                 Ok(evs) => for mut e in evs { e["res"] = json!("Ok"); out.push(e.to_string()); },
                 Err(p) => out.push(json!({"op": "rej64", "case": id, "i": 0, "accepted_at_zero": false, "x": "-1", "T": [0], "res": format!("Panic: {}", p)}).to_string()),
+            }
+            continue;
+        }
+        if c.get("kernel").and_then(|k| k.as_str()) == Some("geo") {
+            // Geometric(p): trivial algorithm - the words that end the call at once with 0 are a prefix (u <= p);
+            // Bringmann-Friedrich - k from the largest remainder, the prefix of words continuing the D loop, and for each
+            // remainder m the prefix of accepting uniform words
+            let p: f64 = c["p"].as_str().unwrap().parse().unwrap();
+            let triv = c["triv"].as_bool().unwrap();
+            let kk = c["k"].as_u64().unwrap();
+            let ms: Vec<u64> = c["ms"].as_array().unwrap().iter().map(|x| x.as_str().unwrap().parse().unwrap()).collect();
+            let above = ((0.99f64 * 9007199254740992.0) as u64) << 11;      // u = 0.99: above every pi (<= 1/2) and fails the trivial test only for p < 0.99
+            let res = guarded(|| -> Vec<Value> {
+                let d = Geometric::new(p).expect("constructor");
+                let mut r = ScriptRng::new(vec![0, 0, 0, 0], 0);
+                let mut call = |w: [u64; 4]| -> (u64, u64) { for i in 0..4 { r.prefix[i] = w[i]; } r.pos = 0; r.state = 31 ^ w[0] ^ w[2]; r.n32 = 0; r.n64 = 0; r.nbytes = 0; let o = d.sample(&mut r); (o, r.words()) };
+                let mut evs = vec![];
+                if triv {
+                    let (o0, n0) = call([0, 0, 0, 0]);
+                    let t = first_true(0, ALL, |w| call([w as u64, 0, 0, 0]) != (0, 1));
+                    evs.push(json!({"op": "geot", "case": id, "out_ok": o0 == 0 && n0 == 1, "T": l14(t), "show": [format!("{:.15}", t as f64 / 18446744073709551616.0)]}));
+                    return evs;
+                }
+                // k: D loop stops at once, remainder word all ones, accepted by u = 0 (any positive threshold)
+                let (ok_, nk) = call([above, u64::MAX, 0, 0]);
+                let kmeas = if ok_ < u64::MAX && (ok_ + 1).is_power_of_two() { (ok_ + 1).trailing_zeros() as i64 } else { -1 };
+                evs.push(json!({"op": "geok", "case": id, "out_ok": nk == 3 && kmeas >= 1, "k": kmeas, "T": [0], "show": [format!("{}", ok_)]}));
+                // pi: first word w continues the D loop iff u(w) < pi: then [above] ends it, remainder 0 accepted by u = 0: result 2^k after 4 words
+                let cont = |o: (u64, u64)| o == (1u64 << kk, 4);
+                let (o0, n0) = call([0, above, 0, 0]);
+                let t = first_true(0, ALL, |w| !cont(call([w as u64, above, 0, 0])));
+                evs.push(json!({"op": "geopi", "case": id, "out_ok": cont((o0, n0)) && call([u64::MAX, 0, 0, 0]) == (0, 3), "T": l14(t), "show": [format!("{:.15}", t as f64 / 18446744073709551616.0)]}));
+                for (i, &m) in ms.iter().enumerate() {
+                    let mw = (0xA5A5_5A5A_C3C3_3C3Cu64 << kk.min(63)) | m;       // high bits must be masked away
+                    let (o0, n0) = call([above, mw, 0, 0]);
+                    let t = first_true(0, ALL, |w| call([above, mw, w as u64, 0]) != (m, 3));
+                    evs.push(json!({"op": "geom", "case": id, "i": i + 1, "out_ok": o0 == m && n0 == 3, "T": l14(t), "show": [format!("{}", m), format!("{:.15}", t as f64 / 18446744073709551616.0)]}));
+                }
+                evs
+            });
+            match res {
+                Ok(evs) => for mut e in evs { e["res"] = json!("Ok"); out.push(e.to_string()); },
+                Err(p) => out.push(json!({"op": "geok", "case": id, "out_ok": false, "k": -1, "T": [0], "res": format!("Panic: {}", p)}).to_string()),
             }
             continue;
         }
